@@ -28,6 +28,16 @@ def sp80067 (ko : Spec.Des.Keying) : Cipher :=
 def serpent (K : List Nat) : Cipher :=
   ⟨16, fun b => (Spec.Serpent.enc K b).getD [], fun b => (Spec.Serpent.dec K b).getD []⟩
 
+/-- `serpent K` with the 33 round keys computed once instead of once per block (the same functions: see
+    `Proofs.Lemmas.ModeInst.serpentShared_eq`; used by the driver, where the key schedule is half of the work) -/
+def serpentShared (K : List Nat) : Cipher :=
+  let rk := Spec.Serpent.roundKeys (8 * K.length) (Spec.Serpent.leNat K)
+  let f (g : List Spec.Serpent.State → Spec.Serpent.State → Spec.Serpent.State) (b : List Nat) : List Nat :=
+    if K.length ≤ 32 ∧ b.length = 16 then
+      Spec.Serpent.leBytes 16 (Spec.Serpent.natOfState (g rk (Spec.Serpent.stateOfNat (Spec.Serpent.leNat b))))
+    else []
+  ⟨16, f Spec.Serpent.encState, f Spec.Serpent.decState⟩
+
 /-- the key bundle denoted by the arguments of a `TDEA(K1,K2,K3)` call (SP 800-67 keying options):
     one string of 8/16/24 bytes, two 8-byte strings (option 2), three 8-byte strings (option 1) -/
 def keyingOfCall (K1 : List Nat) (K2 K3 : Option (List Nat)) : Option Spec.Des.Keying :=
